@@ -209,7 +209,8 @@ def chip(cfg, v):
     if t == 'float':
         return int(v) * 0.25
     if t == 'dec':
-        return Decimal(int(v)) / Decimal(4)
+        # "dollar values with two decimal places" (docs/simulation.rst)
+        return (Decimal(int(v)) / Decimal(4)).quantize(Decimal('0.01'))
     raise ValueError(t)
 
 
@@ -371,6 +372,18 @@ def _build_state(cfg, mask=None, deck_seed=None):
     cls_name, sig, _, _, _ = GAMES[game]
     cls = getattr(pokerkit, cls_name)
     sb, bb = chip(cfg, cfg['sb']), chip(cfg, cfg['bb'])
+    if cfg.get('via_game'):
+        # game object first (needed by HandHistory.from_game_state)
+        if sig == 'blinds2':
+            g = cls(autos, cfg['trim'], antes, blinds, sb, bb, **kw)
+        elif sig == 'blinds1':
+            g = cls(autos, cfg['trim'], antes, blinds, sb, **kw)
+        else:
+            g = cls(autos, cfg['trim'], antes, chip(cfg, cfg['bring_in']),
+                    sb, bb, **kw)
+        st_ = g(stacks, n)
+        st_._pkv_game = g
+        return st_
     if sig == 'blinds2':
         return cls.create_state(
             autos, cfg['trim'], antes, blinds, sb, bb, stacks, n, **kw,
@@ -830,7 +843,7 @@ class Interp:
         player = None
         if (a // 6) % 3 == 1:
             player = self._pick(idx, a // 18)
-        if m == 0 or m == 5:
+        if m == 0 or m == 5 or self.cfg.get('single_runout'):
             cnt = None
         else:
             cnt = min(m if m <= 3 else 2, cap)
@@ -894,7 +907,15 @@ class Interp:
                     cards.append(dealable.pop(v % len(dealable)))
                     v //= 3
             return (tuple(cards),)
-        if m == 0 or m == 5:
+        if m == 0:
+            return ()
+        if m == 5:
+            # out of turn: any player still to show, by explicit index
+            pend = list(s.showdown_indices)
+            j = self._pick(pend, a // 6)
+            hj = tuple(s.hole_cards[j])
+            if cards_known(hj):
+                return (hj if (a // 6) % 2 else True, j)
             return ()
         if m == 1:
             return (True,)
